@@ -11,6 +11,9 @@
   counters, none/password/MD5 packing) and EVERY schedule (any list of thread ids — not a
   preemption bound):
 
+  * `source_shape`               the lock scope, the place of the packing and of both sequence-number
+                                 updates, and the keep-alive callable, read from the source on this run,
+                                 are the ones the model hard-wires
   * `inv_all_schedules`          the inductive invariant holds in every reachable state
   * `monitor_accepts_all_schedules`  hence the specification's monitor accepts the wire log and
                                  results of every reachable state; spelled out per clause:
@@ -30,8 +33,17 @@
                                  must equal the model's)
 -/
 import PyIpmi.Lemmas.ThreadsProgress
+import PyIpmi.Gen.Threads
 namespace PyIpmi.Props.C14
 open PyIpmi.Threads PyIpmi.Spec.Threads
+
+/-- The shape of `_send_and_receive` / `_send_ipmi_msg` / `IpmiMsg.pack` /
+`Session.increment_sequence_number` / the keep-alive callable, as read from the AST of today's
+working tree, is the one the step function of the model hard-wires (one lock block holding
+packing, transmission and reception; sequence bump before it; nothing re-queued; the keep-alive
+and both public entry points run this program).  A change of that shape in `/repo` regenerates
+`Gen/Threads.lean` and this stops being provable. -/
+theorem source_shape : PyIpmi.Gen.Threads.shape = Shape.expected := by decide
 
 theorem inv_all_schedules (c : Cfg) (hs : c.sessSeq ≤ 0xffffffff) (sched : List Nat) :
     Inv (run (init c) sched) :=
